@@ -587,3 +587,94 @@ reader_harness!(#[kani::unwind(3)] canary_u9_index, {
 	std::mem::forget(r);
 });
 /*@@GENERATED:index2@@*/
+
+// ================================================================== U2b: lifting of page search / page update through the log view
+// LogWriter::with_index by contract: "the page of (table, chunk) in the log view, if any" (ghost page OV_PAGE)
+pub(crate) static mut OV_PRESENT: bool = false;
+pub(crate) static mut OV_PAGE: [u8; 512] = [0u8; 512];
+pub(crate) static mut OV_TABLE: u16 = 0;
+pub(crate) static mut OV_CHUNK: u64 = 0;
+pub(crate) static mut OV_CALLS: usize = 0;
+// a log view implementing the LogQuery contract for index pages: "the page of (table, chunk), if the view has one"
+pub(crate) struct GhostLog;
+impl LogQuery for GhostLog {
+	type ValueRef<'a> = &'a [u8];
+	fn with_index<R, F: FnOnce(&Chunk) -> R>(&self, table: TableId, index: u64, f: F) -> Option<R> {
+		unsafe {
+			OV_CALLS += 1;
+			OV_TABLE = table.as_u16();
+			OV_CHUNK = index;
+			if OV_PRESENT {
+				let c = Chunk(OV_PAGE);
+				Some(f(&c))
+			} else {
+				None
+			}
+		}
+	}
+	fn value(&self, _table: crate::table::TableId, _index: u64, _dest: &mut [u8]) -> bool {
+		panic!("verif: not an index operation")
+	}
+	fn value_ref<'a>(&'a self, _table: crate::table::TableId, _index: u64) -> Option<Self::ValueRef<'a>> {
+		panic!("verif: not an index operation")
+	}
+	fn ref_count<R, F: FnOnce(&crate::ref_count::Chunk) -> R>(&self, _table: crate::ref_count::RefCountTableId, _index: u64, _f: F) -> Option<R> {
+		panic!("verif: not an index operation")
+	}
+}
+macro_rules! lift_harness {
+	($(#[$m:meta])* $name:ident, $body:expr) => {
+		#[kani::proof]
+		#[kani::unwind(66)]
+		#[kani::solver(kissat)]
+		$(#[$m])*
+		#[kani::stub(crate::log::LogWriter::insert_index, rec_insert_index)]
+		#[kani::stub(std::arch::x86_64::_mm_srl_epi64, crate::verif_stubs::mm_srl_epi64)]
+		#[kani::stub(std::hash::RandomState::new, crate::verif_stubs::random_state_new)]
+		#[kani::stub(parking_lot::RawRwLock::lock_shared_slow, crate::verif_stubs::lock_shared_slow)]
+		#[kani::stub(parking_lot::RawRwLock::unlock_shared_slow, crate::verif_stubs::unlock_shared_slow)]
+		#[kani::stub(parking_lot::RawRwLock::lock_exclusive_slow, crate::verif_stubs::lock_exclusive_slow)]
+		#[kani::stub(parking_lot::RawRwLock::unlock_exclusive_slow, crate::verif_stubs::unlock_exclusive_slow)]
+		#[kani::stub(std::fmt::format, crate::verif_stubs::fmt_format)]
+		fn $name() {
+			$body
+		}
+	};
+}
+fn u2b_get_body(p: usize) {
+	let b = any_bits();
+	let t = mk_table(2, b);
+	let key: Key = kani::any();
+	let present: bool = kani::any();
+	let page: [u8; 512] = kani::any();
+	unsafe {
+		OV_PRESENT = present;
+		OV_PAGE = page;
+		OV_CALLS = 0;
+	}
+	let w = GhostLog;
+	let r = ok(t.get(&key, p, &w));
+	let kp = TableKey::index_from_partial(&key);
+	match r {
+		None => assert!(false, "U2b.get.no_error"),
+		Some((e, i)) => {
+			assert!(unsafe { OV_CALLS } == 1 && unsafe { OV_TABLE } == t.id.as_u16() && unsafe { OV_CHUNK } == t.chunk_index(kp), "U2b.get.consults_the_keys_page_of_this_table");
+			if present {
+				// the page searched is the log view's page, with the key's prefix and the requested start position
+				let c = Chunk(page);
+				let (e2, i2) = t.find_entry(kp, p, &c);
+				assert!(e.as_u64() == e2.as_u64() && i == i2, "U2b.get.is_the_page_search_on_the_log_views_page");
+			} else {
+				// no page in the log view and no file yet: the index is empty
+				assert!(e.is_empty() && i == 0, "U2b.get.empty_when_no_page_exists");
+			}
+		},
+	}
+	kani::cover!(present, "page in the log view");
+	kani::cover!(!present, "no page");
+}
+lift_harness!(u2b_get_p0, u2b_get_body(0));
+lift_harness!(u2b_get_p37, u2b_get_body(37));
+lift_harness!(u2b_get_p64, u2b_get_body(64));
+
+
